@@ -25,7 +25,7 @@
 enum FState { F_FREE = 0, F_RUNNABLE, F_FUTEX, F_PMUTEX, F_PCOND, F_PRED, F_QUIESCE, F_JOIN, F_DONE, F_SLEEP };
 enum { REG_ARENA = 0, REG_STACK = 1, REG_BSS = 2 };
 enum { POL_UNIFORM = 0, POL_STICKY = 1, POL_PCT = 2, POL_RR = 3, POL_PRIO = 4 };
-enum { P_DEAD = 0 };   // runtime-owned probe ids start at 0; harness probes start at 8
+enum { P_DEAD = 0, P_TOLERATED_DEAD_READ = 1 };   // runtime-owned probe ids start at 0; harness probes start at 8
 
 struct Cell {
 	uint32_t stamp;
